@@ -8,16 +8,16 @@
 (* parent is, what the parent's `exports` looks like, whether the parent   *)
 (* imported the name, the runtime flag.  Impl... transcribes               *)
 (* _griffe/mixins.py (ObjectAliasMixin.is_* properties) statement by       *)
-(* statement, including attribute accesses on a missing parent; Doc... is  *)
+(* statement (parent-less objects included); Doc... is                     *)
 (* the procedure as documented (docstrings of the properties,              *)
 (* docs/guide/users/navigating.md "Object visibility", and the comments    *)
 (* stating the intent of the module special case).  TLC enumerates every   *)
-(* row, checks Impl = Doc outside the named hazards, and prints every row  *)
+(* row, checks Impl = Doc on every row, and prints every row               *)
 (* for the harness, which builds the situation with real objects.          *)
 (***************************************************************************)
 EXTENDS Naturals, Sequences, FiniteSets, TLC, Json
 
-CONSTANTS Strict, Emit
+CONSTANTS Emit
 
 Publics == {"none", "true", "false"}
 Kinds == {"module", "class", "function", "attribute", "alias"}
@@ -30,7 +30,6 @@ VARIABLES public, kind, nameclass, parent, exports, imported, runtime, pc, impl,
 rowvars == <<public, kind, nameclass, parent, exports, imported, runtime>>
 vars == <<rowvars, pc, impl, doc>>
 
-Raise == "AttributeError"        \* None has no attribute `is_module`
 Under == nameclass # "plain"     \* name.startswith("_")
 IsAlias == kind = "alias"
 IsModule == kind = "module"
@@ -43,20 +42,19 @@ ImplSpecial == nameclass = "__x__"                                   \* startswi
 ImplPrivate == Under /\ ~ImplSpecial
 ImplClassPrivate == parent # "none" /\ parent = "class" /\ nameclass = "__x"      \* self.parent and self.parent.is_class and ...
 ImplImported == parent # "none" /\ imported                           \* self.parent and self.name in self.parent.imports
-ImplExported ==                                                        \* self.parent.is_module and bool(exports and name in exports)
-  IF parent = "none" THEN Raise
-  ELSE B2S(ParentIsModule /\ (exports \in {"lists", "omits"}) /\ Listed)
+ImplExported ==                 \* bool(self.parent and self.parent.is_module and self.parent.exports and name in exports)
+  B2S(parent # "none" /\ ParentIsModule /\ (exports \in {"lists", "omits"}) /\ Listed)
 ImplWildcard ==
-  IF ~runtime THEN "false"                                             \* `not self.runtime or ...` short-circuits
-  ELSE IF parent = "none" THEN Raise                                   \* ... `not self.parent.is_module`
-  ELSE IF ~ParentIsModule THEN "false"
+  IF ~runtime THEN "false"                                             \* `not self.runtime or not self.parent or ...`
+  ELSE IF parent = "none" THEN "false"
+  ELSE IF ~ParentIsModule THEN "false"                                 \* ... `not self.parent.is_module`
   ELSE IF exports # "none" THEN B2S(Listed)                            \* `exports is not None`
   ELSE IF Under THEN "false"
   ELSE B2S(IsAlias \/ ~IsModule \/ ImplImported)
 ImplPublic ==
   IF public # "none" THEN public = "true"
   ELSE IF ~IsAlias /\ IsModule /\ ~Under THEN TRUE
-  ELSE IF parent # "none" /\ ParentIsModule /\ exports \in {"lists", "omits"} THEN Listed     \* bool(self.parent.exports)
+  ELSE IF parent # "none" /\ ParentIsModule /\ exports # "none" THEN Listed                   \* self.parent.exports is not None
   ELSE IF ImplPrivate THEN FALSE
   ELSE IF ImplImported THEN FALSE
   ELSE TRUE
@@ -100,13 +98,11 @@ Evaluate == pc = "row" /\ pc' = "done" /\ impl' = Impl /\ doc' = Doc /\ UNCHANGE
 Next == Evaluate
 Spec == Init /\ [][Next]_vars
 
-\* ---- hazards (known deviations of the unchanged code) ---------------------------------------------------
-EmptyAll == ParentIsModule /\ exports = "empty"    \* `__all__ = []`: bool([]) is False -> treated as "no __all__"
-NoParent == parent = "none"                        \* attribute access on the missing parent of a top-level module
+\* ---- the clause, per predicate (no known deviation is left: `__all__ = []` and parent-less objects were fixed) ----
 Done == pc = "done"
-PublicAsDocumented == (Done /\ (Strict \/ ~EmptyAll)) => impl.public = doc.public
-ExportedAsDocumented == (Done /\ (Strict \/ ~NoParent)) => impl.exported = doc.exported
-WildcardAsDocumented == (Done /\ (Strict \/ ~NoParent)) => impl.wildcard = doc.wildcard
+PublicAsDocumented == Done => impl.public = doc.public
+ExportedAsDocumented == Done => impl.exported = doc.exported
+WildcardAsDocumented == Done => impl.wildcard = doc.wildcard
 NamePredicatesAsDocumented ==
   Done => /\ impl.private = doc.private /\ impl.special = doc.special
           /\ impl.class_private = doc.class_private /\ impl.imported = doc.imported
@@ -117,5 +113,5 @@ EmitRow ==
   (Emit /\ Done) =>
     PrintT(<<"CASE", ToJson([public |-> public, kind |-> kind, nameclass |-> nameclass, parent |-> parent, exports |-> exports,
                              imported |-> imported, runtime |-> runtime, impl |-> impl, doc |-> doc,
-                             hz |-> (IF EmptyAll THEN {"empty-all"} ELSE {}) \cup (IF NoParent THEN {"no-parent"} ELSE {})])>>)
+                             class |-> (IF ParentIsModule /\ exports = "empty" THEN {"empty-all"} ELSE {}) \cup (IF parent = "none" THEN {"no-parent"} ELSE {})])>>)
 =============================================================================
